@@ -74,7 +74,8 @@ def extract():
     sites = {
         "bidir.rs": one(read("src/bin/copia/bidir.rs"), r'fn copy_atomic.*?tmp\.push\("([^"]+)"\)', "bidir staging suffix"),
         "incremental.rs": one(read("src/bin/copia/incremental.rs"), r'fn tmp_path.*?s\.push\("([^"]+)"\)', "incremental staging suffix"),
-        "serve.rs": one(read("src/bin/copia/serve.rs"), r'fn tmp_of.*?s\.push\("([^"]+)"\)', "serve staging suffix"),
+        # serve.rs: per-process name `.<pid>.copia-tmp` (format!(".{}.copia-tmp", pid)) — the reserved suffix is what follows the pid
+        "serve.rs": one(read("src/bin/copia/serve.rs"), r'fn tmp_of.*?s\.push\((?:format!\()?"(?:\.\{\})?([^"]+)"', "serve staging suffix"),
         "transfer.rs": one(read("src/bin/copia/transfer.rs"), r'format!\("\{escaped\}([^"]+)"\)', "push staging suffix"),
     }
     if len(set(sites.values())) != 1:
